@@ -216,6 +216,18 @@ CTPrograms(z) ==
   << <<CTIf(FF, <<>>, <<SayS("else of empty then")>>), CTIf(TT, <<SayS("then")>>, <<>>), SayS("after")>> >>
   } \cup CFCondLoops
 
+(* CL: compound assignment as TEXT (C14): `let x be op e` against `let x be x op e`, the operator spelled as a word or as a symbol *)
+(* (whether `let x be - 3` is a subtraction is decided by the parser)                                                            *)
+CLStart == { N(10), S("ab"), Lit(Null) }
+CLArgs == { <<N(3)>>, <<N(3), N(2)>>, <<S("x")>>, <<Var("y")>>, <<Lit(Fin(32))>> }
+CLCompound(a, op, es) == << <<Put(N(4), "y"), Put(a, "x"), SAssign(0, Var("x"), op, es), Say(Var("x"))>> >>
+CLExpanded(a, op, es) == << <<Put(N(4), "y"), Put(a, "x"), SAssign(0, Var("x"), "none", <<Bin(op, Var("x"), es)>>), Say(Var("x"))>> >>
+CLPairs == { <<CLCompound(a, op, es), CLExpanded(a, op, es)>> : a \in CLStart, op \in ArithOps, es \in CLArgs }
+CLPrograms(z) == UNION { {pr[1], pr[2]} : pr \in CLPairs }
+CompoundIsExpanded ==
+  \A pr \in CLPairs : LET r1 == RunAll(InitQuiet(Number(pr[1]), <<>>, -1, 0)) r2 == RunAll(InitQuiet(Number(pr[2]), <<>>, -1, 0)) IN
+                       r1.st = r2.st /\ r1.out = r2.out
+
 (* LT: programs for the linter as TEXT: constant assignments of every form at every depth, repeated mentions, several blocks *)
 LTPrograms(z) == {
   << <<Put(N(5), "x"), Say(Var("x")), SPNum(0, Var("y"), N(3)), Put(S("hi"), "h")>>,
